@@ -38,7 +38,7 @@ inline std::vector<std::string> key_shapes(bool thorough) {
 inline std::vector<size_t> input_lengths(bool thorough, bool every) {
 	std::vector<size_t> v;
 	if (every) { for (size_t i = 0; i <= (thorough ? 300u : 80u); ++i) v.push_back(i); for (size_t x : { 127u, 128u, 129u, 255u, 256u, 257u, 1000u, 4096u }) if (x > (thorough ? 300u : 80u)) v.push_back(x); }
-	else for (size_t x : { 0u, 1u, 63u, 64u, 65u, 76u, 127u, 128u, 129u, 255u, 256u, 257u, 1000u, 4096u }) v.push_back(x);
+	else for (size_t x : { 0u, 1u, 63u, 64u, 65u, 76u, 127u, 128u, 129u, 255u, 256u, 257u, 1000u, 1024u, 1152u, 1153u, 2176u, 4096u, 65664u }) v.push_back(x);   // incl. 128 + 1024k (one block + whole kilobytes)
 	return v;
 }
 
